@@ -44,13 +44,15 @@ TIERS = {
 }
 
 KINDS = ["call", "put", "forward", "digital_call", "digital_put", "callspread", "butterfly",
-         "barrier", "barrier", "barrier", "cds", "ntd", "ntd"]
+         "barrier", "barrier", "barrier", "cds", "ntd", "ntd", "multi", "multi", "rates"]
 
 
 def generate(seed, tier="quick"):
     r = sub_rng(seed, "c17.scenario")
     kind = r.choice(KINDS)
     x0 = 100.0
+    if kind == "rates":
+        x0 = 0.03
     m = r.choice([2, 3, 5])
     T = r.choice([0.5, 1.0])
     spec = {"kind": kind, "maturity": T, "strike": round(x0 * r.uniform(0.9, 1.1), 4), "notional": r.choice([1.0, 1.0, 2.0]),
@@ -61,6 +63,13 @@ def generate(seed, tier="quick"):
                     barrier=round(x0 * (r.uniform(1.02, 1.12) if bt.startswith("UP") else r.uniform(0.88, 0.98)), 4))
     if kind == "cds":
         spec.update(default_level=r.choice([-0.05, -0.1]), recovery=0.4, spread=0.01)
+    if kind == "multi":
+        d = r.choice([2, 3])
+        spec.update(names=d, sub=r.choice(["logspot", "performances_rainbow", "max_performances", "mean", "nthspot", "indicators"]),
+                    nth=r.randrange(1, d + 1))
+    if kind == "rates":
+        d = r.choice([2, 3])
+        spec.update(names=d, sub=r.choice(["bond", "cap", "swaption", "ratchet"]))
     if kind == "ntd":
         d = r.choice([2, 3])
         spec.update(names=d, default_levels=[r.choice([-0.05, -0.08, -0.12]) for _ in range(d)], index=r.randrange(1, d + 1),
@@ -69,7 +78,7 @@ def generate(seed, tier="quick"):
     runs = []
     for _ in range(nruns):
         eng = r.choice(["standard", "standard", "mlmc"])
-        rep = "LOG" if kind in ("cds", "ntd") else r.choice(["LOG", "IDENTITY"])
+        rep = "LOG" if kind in ("cds", "ntd") else ("IDENTITY" if kind == "rates" else r.choice(["LOG", "IDENTITY"]))
         runs.append({"engine": eng, "rep": rep, "nproc": r.choice([1, 1, 2, 4]), "n": r.choice([2, 3, 5, 9, 20]),
                      "max_level": r.choice([1, 2])})
     vol = r.choice([0.03, 0.08, 0.15])
@@ -175,9 +184,50 @@ def execute(wd, sc):
         product = Product(payoff_underlying=NthDefaultTimes(default_levels=list(spec["default_levels"]), index=spec["index"]),
                           payoff=CDS(recovery_rate=spec["recovery"], spread=spec["spread"], maturity=T,
                                      discounting=model_for_cds.df), maturity=T, notional=spec["notional"])
+    elif spec["kind"] == "multi":
+        from rpylib.product.payoff import Vanilla, PayoffType, Rainbow, Forward, PayoffOnTheFly
+        from rpylib.product.product import Product
+        from rpylib.product import underlying as U
+
+        d_ = spec["names"]
+        spots0 = [sc["x0"]] * d_
+        sub = spec["sub"]
+        if sub == "logspot":
+            und, pay = U.LogSpot(), PayoffOnTheFly(_sum_of)
+        elif sub == "performances_rainbow":
+            w = [0.5, 0.3, 0.2][:d_]
+            und, pay = U.Performances(spots0), Rainbow(weights=[x / sum(w) for x in w], strike=1.0, payoff_type=PayoffType.CALL)
+        elif sub == "max_performances":
+            und, pay = U.MaximumOfPerformances(spots0), Vanilla(strike=1.0, payoff_type=PayoffType.CALL)
+        elif sub == "mean":
+            und, pay = U.Mean(), Vanilla(strike=spec["strike"], payoff_type=PayoffType.PUT)
+        elif sub == "nthspot":
+            und, pay = U.NthSpot(spec["nth"]), Vanilla(strike=spec["strike"], payoff_type=PayoffType.CALL)
+        else:
+            und, pay = U.Indicators([0.97 * sc["x0"]] * d_), PayoffOnTheFly(_sum_of)
+        product = Product(payoff_underlying=und, payoff=pay, maturity=T, notional=spec["notional"])
+    elif spec["kind"] == "rates":
+        from rpylib.product.payoff import Bond, Cap, Swaption, Ratchet
+        from rpylib.product.product import Product
+        from rpylib.product.underlying import Libors
+
+        d_ = spec["names"]
+        rates0 = np.array([sc["x0"]] * d_)
+        deltas = np.array([0.5] * d_)
+        sub = spec["sub"]
+        if sub == "bond":
+            pay = Bond(underlying_rates=rates0, deltas=deltas)
+        elif sub == "cap":
+            pay = Cap(underlying_rates=rates0, deltas=deltas, strike=0.98 * sc["x0"])
+        elif sub == "swaption":
+            pay = Swaption(underlying_rates=rates0, deltas=deltas, strike=sc["x0"])
+        else:
+            pay = Ratchet(deltas=deltas, funding_gearing=1.0, funding_margin=0.0, structured_spread=0.001,
+                          structured_increment=0.002, first_rate=sc["x0"])
+        product = Product(payoff_underlying=Libors(), payoff=pay, maturity=T, notional=spec["notional"])
     else:
         product = B.build_product(spec, model_for_cds)
-    if spec["kind"] not in ("cds", "ntd") and m > 2:
+    if spec["kind"] not in ("cds", "ntd", "multi", "rates") and m > 2:
         # path observed on m dates but payoff on the terminal spot: Spot underlying with an m-point grid
         from rpylib.product.underlying import Spot
 
@@ -258,7 +308,7 @@ def execute(wd, sc):
                         wd.probes["c17.stochastic_time_grid"] += 1
                     path = base + drift * ptimes + d + j
                     val, pobj = _evaluate(pristine, run["rep"], ptimes, path, j)
-                    exp = float(val) * df
+                    exp = float(np.ravel(val)[0]) * df
                     got = float(store[i])
                     ev = getattr(pobj.payoff, "barrier_event", None)
                     ev_pair.append(ev)
@@ -306,6 +356,10 @@ def execute(wd, sc):
     return {"violations": V, "errors": errors, "info": {"runs": len(reps_seen)}, "key": key, "nontrivial": nontrivial}
 
 
+def _sum_of(u):
+    return float(np.sum(u))
+
+
 def _monitors(add, sc, pristine, rep, times, path, jump, base, log):
     """static identities on one produced path, with fresh products (secondary: coverage = the paths produced)"""
     from rpylib.process.process import ProcessRepresentation
@@ -315,6 +369,8 @@ def _monitors(add, sc, pristine, rep, times, path, jump, base, log):
 
     spec = sc["product"]
     kind = spec["kind"]
+    if kind in ("multi", "rates"):
+        return
     if kind == "ntd":
         # n-th default times are non-decreasing in n, each is the first time a jump of that name falls below its level
         from rpylib.product.underlying import NthDefaultTimes
